@@ -151,3 +151,55 @@ Theorem C08_rules_implies_accept : forall now w ws a st, may_write w = true ->
      a_exists a = true -> a_deleted a = false -> fst (run (cross_post_steps now ws w a) st) = Accept).
 Proof. exact rules_implies_accept. Qed.
 Print Assumptions C08_rules_implies_accept.
+
+(* ---- the read-only system boards are CONFIGURATION values (ptttype.BN_SECURITY / BN_ALLPOST, set from the site's ini
+   file by ptttype.InitConfig after the packages were initialised). [is_readonly_board sec allpost name] mirrors
+   isReadonlyBoard with the two configured names as inputs: for EVERY pair of configured names, a board is read-only
+   exactly when its name equals one of them as a C string in the 13-byte id field, up to the case of A..Z *)
+Theorem C08_readonly_board_rule : forall sec allpost name,
+  is_readonly_board sec allpost name = true <-> same_board_name name sec \/ same_board_name name allpost.
+Proof. exact is_readonly_board_iff. Qed.
+Print Assumptions C08_readonly_board_rule.
+
+(* whatever the site calls its read-only system boards: on a board the configuration in force names, each of the four
+   operations refuses — for every user (sysop included), every board attribute, every article — and leaves no trace *)
+Theorem C08_readonly_configured_refuses : forall sec allpost name now w ws a st,
+  w_readonly w = is_readonly_board sec allpost name -> same_board_name name sec \/ same_board_name name allpost ->
+  (fst (run (new_post_steps now w) st) <> Accept /\ frame (snd (run (new_post_steps now w) st)) = frame st) /\
+  (fst (run (recommend_steps now w a) st) <> Accept /\ frame (snd (run (recommend_steps now w a) st)) = frame st) /\
+  (fst (run (edit_post_steps w a) st) <> Accept /\ frame (snd (run (edit_post_steps w a) st)) = frame st) /\
+  (fst (run (cross_post_steps now ws w a) st) <> Accept /\ frame (snd (run (cross_post_steps now ws w a) st)) = frame st).
+Proof. exact readonly_configured_refuses. Qed.
+Print Assumptions C08_readonly_configured_refuses.
+
+(* and a board the configuration in force does not name is not read-only (a compiled-in name that the site replaced
+   has no effect) *)
+Theorem C08_not_configured_not_readonly : forall sec allpost name,
+  ~ same_board_name name sec -> ~ same_board_name name allpost -> is_readonly_board sec allpost name = false.
+Proof. exact not_configured_not_readonly. Qed.
+Print Assumptions C08_not_configured_not_readonly.
+
+(* ---- the writer's uid. The cool-down word is SHM->cooldowntime[uid-1]; [cd_of_uid] reads the store of plantings at
+   that slot. For EVERY uid (no bound: 50 users or 2 000 000) the writer's decision reads the word planted at his own
+   uid, and a word planted at any other uid never reaches it *)
+Theorem C08_cooldown_word_own_slot : forall s uid other v,
+  cd_of_uid (cd_set s (uid_slot uid) v) uid = v /\
+  (other <> uid -> cd_of_uid (cd_set s (uid_slot other) v) uid = cd_of_uid s uid).
+Proof. exact cooldown_word_own_slot. Qed.
+Print Assumptions C08_cooldown_word_own_slot.
+
+(* any number of other users' words, planted in any order *)
+Theorem C08_cooldown_others_irrelevant : forall fuel l s uid maxusers, others_ok uid maxusers l fuel = true ->
+  cd_of_uid (plant_others s l fuel) uid = cd_of_uid s uid.
+Proof. exact cd_of_uid_others. Qed.
+Print Assumptions C08_cooldown_others_irrelevant.
+
+(* "no active cool-down": while the writer's word says so (not expired, and the board cools down / the post counter is
+   saturated / over the population threshold; sysop exempt), a new post, a comment and a cross-post are refused — the
+   verdict depends on the facts alone, so on the uid only through the word read above *)
+Theorem C08_active_cooldown_refuses : forall now w ws a st, cooldown_active w = true ->
+  fst (run (new_post_steps now w) st) <> Accept /\
+  fst (run (recommend_steps now w a) st) <> Accept /\
+  fst (run (cross_post_steps now ws w a) st) <> Accept.
+Proof. exact active_cooldown_refuses. Qed.
+Print Assumptions C08_active_cooldown_refuses.
